@@ -173,8 +173,19 @@ func ruleRetainNotifications(c *chk.Ctx) {
 		return
 	}
 	isQ := func(ci ssa.CallInstruction, name string) bool {
-		g := ci.Common().StaticCallee()
-		return g != nil && ir.BaseName(g) == name && len(ci.Common().Args) > 0 && chk.IsField(ci.Common().Args[0], c.M.SInq)
+		cc := ci.Common()
+		g := ir.CalleeThroughBound(cc)
+		if g == nil || ir.BaseName(g) != name {
+			return false
+		}
+		if mc, ok := cc.Value.(*ssa.MakeClosure); ok {
+			// a bound method value called in place (range-over-func): the receiver is the binding
+			if len(mc.Bindings) == 1 {
+				return chk.IsField(mc.Bindings[0], c.M.SInq)
+			}
+			return false
+		}
+		return len(cc.Args) > 0 && chk.IsField(cc.Args[0], c.M.SInq)
 	}
 	var each, clear, add ssa.CallInstruction
 	for _, g := range c.P.Ext(stop) {
@@ -351,7 +362,7 @@ func ruleDispatcherExit(c *chk.Ctx) {
 		})
 		for _, alt := range alts {
 			emptyKnown := false
-			for _, cd := range alt {
+			for _, cd := range ir.NormConds(alt) {
 				if call, ok := cd.V.(*ssa.Call); ok && cd.Truth {
 					if g := call.Call.StaticCallee(); g != nil && ir.BaseName(g) == "IsEmpty" && chk.IsField(call.Call.Args[0], c.M.SInq) {
 						emptyKnown = true
@@ -373,10 +384,34 @@ func ruleDispatcherExit(c *chk.Ctx) {
 				}
 				relock := false
 				if cd.If.Parent() == f {
-					for _, i2 := range between(cd.If, r) {
-						if isLock(i2) {
-							relock = true
+					// from the edge this outcome selects to the return, without coming round to the
+					// test again (a later evaluation of the test establishes its outcome anew)
+					if succ := succOfCond(cd); succ != nil {
+						seenB := map[*ssa.BasicBlock]bool{cd.If.Block(): true}
+						var walk func(bl *ssa.BasicBlock) bool
+						walk = func(bl *ssa.BasicBlock) bool {
+							if seenB[bl] {
+								return false
+							}
+							seenB[bl] = true
+							for _, i2 := range bl.Instrs {
+								if i2 == ssa.Instruction(r) {
+									return false
+								}
+								if isLock(i2) && blockReachesInstr(bl, r) {
+									return true
+								}
+							}
+							for _, sb := range bl.Succs {
+								if walk(sb) {
+									return true
+								}
+							}
+							return false
 						}
+						relock = walk(succ)
+					} else {
+						relock = true
 					}
 				} else {
 					// the test sits in a predicate helper: no re-acquisition from the outcome's edge
@@ -435,4 +470,26 @@ func succOfCond(cd ir.Cond) *ssa.BasicBlock {
 		}
 	}
 	return nil
+}
+
+// blockReachesInstr: some path from the start of block b leads to instruction r.
+func blockReachesInstr(b *ssa.BasicBlock, r ssa.Instruction) bool {
+	seen := map[*ssa.BasicBlock]bool{}
+	var walk func(x *ssa.BasicBlock) bool
+	walk = func(x *ssa.BasicBlock) bool {
+		if x == r.Block() {
+			return true
+		}
+		if seen[x] {
+			return false
+		}
+		seen[x] = true
+		for _, s := range x.Succs {
+			if walk(s) {
+				return true
+			}
+		}
+		return false
+	}
+	return walk(b)
 }
